@@ -451,6 +451,10 @@ theorem mkdir_step_dir {ed : Ed} (hinv : Inv ed) {P : Path} (hpb : ed.pathBuf = 
 
 theorem isTree_040000 : isTreeMode 0o040000 = true := by decide
 
+theorem null_ne_empty : nullId ≠ emptyTreeId := by decide
+
+theorem good_placeholder (n : Bytes) : GoodEntry ⟨0o040000, n, nullId⟩ := fun _ => ⟨null_ne_empty, rfl⟩
+
 /-- common end of the two cases that create a null-id placeholder directory `n` in the tree at `P` -/
 theorem mkdir_finish {ed : Ed} (hinv : Inv ed) {P : Path} (hpb : ed.pathBuf = P) {t : List Entry}
     (hP : aget P ed.trees = some t) {n : Bytes} {t' : List Entry} (ht' : TreeOk t') {e' : Entry}
@@ -497,7 +501,7 @@ theorem mkdir_step_file {ed : Ed} (hinv : Inv ed) {P : Path} (hpb : ed.pathBuf =
   have hen : e.name = n := ((findName_eq_some_iff ht.uniq).1 hf).2
   let e2 : Entry := { e with oid := nullId, mode := 0o040000 }
   have he2n : e2.name = t[i].name := by rw [hti]
-  have ht' := treeOk_set_sort ht hi e2 he2n
+  have ht' := treeOk_set_sort ht hi e2 he2n (good_placeholder _)
   have hmem : ∀ x, x ∈ sortEntries (t.set i e2) ↔ x ∈ t.set i e2 :=
     fun x => (sortEntries_perm _).mem_iff
   have hfn := findName_set ht hi e2 he2n ht' hmem
@@ -527,8 +531,8 @@ theorem mkdir_step_absent {ed : Ed} (hinv : Inv ed) {P : Path} (hpb : ed.pathBuf
   obtain ⟨i, hs, hp⟩ := searchName_absent ht hn hf (!isLast || (k.mode == 0o040000))
   rw [hmb] at hp
   let e3 : Entry := { name := n, mode := 0o040000, oid := nullId }
-  have ht' := treeOk_insertAt ht hn hf hp e3 rfl isTree_040000
-  have hfn := findName_insertAt ht hn hf hp e3 rfl isTree_040000
+  have ht' := treeOk_insertAt ht hn hf hp e3 rfl isTree_040000 (good_placeholder _)
+  have hfn := findName_insertAt ht hn hf hp e3 rfl isTree_040000 (good_placeholder _)
   have hstep : stepAt ed n isLast (some k) =
       .down { ed with trees := aset P (insertAt t i e3) ed.trees } none := by
     simp only [stepAt, hpb, hP, hs]
